@@ -13,7 +13,7 @@ func init() {
 		ID:    "C11",
 		Level: "other",
 		Run:   c11,
-		Explanation: "Decides that each code path that changes a database file on LiteFS's own initiative acquires the lock set SQLite's protocol requires: (1) every call site of the internal writers that take no locks themselves (ApplyLTXNoLock, WriteLTXFileAt, CheckpointNoLock, recover, rollbackJournal(Segment), invalidateJournal, TruncateWAL) is discovered and must be dominated by a successful AcquireWriteLock whose release is deferred (or pinned as a halt lock), or lie in another member of the family, or be application-originated (the SQLite connection holds the locks), or be a confirmed exception; (2) TryAcquireWriteLock's exit lock sets, decided by the per-path typestate: rollback mode PENDING/SHARED/RESERVED exclusive, WAL mode SHARED+DMS shared and WRITE/CKPT/RECOVER/READ0-4 exclusive, everything released on failure; (3) no function re-acquires the write lock while holding it (self-deadlock); (4) wiring tables: guard set fields to the same-named mutexes, lock-type constants to guards and to SQLite's byte offsets, range parsers; (5) the checkpoint gate and the WAL write guards.",
+		Explanation: "Decides that each code path that changes a database file on LiteFS's own initiative acquires the lock set SQLite's protocol requires: (1) every call site of the internal writers that take no locks themselves (ApplyLTXNoLock, WriteLTXFileAt, CheckpointNoLock, recover, rollbackJournal(Segment), invalidateJournal, TruncateWAL) is discovered and must be dominated by a successful AcquireWriteLock whose release is deferred (or pinned as a halt lock), or lie in another member of the family, or be application-originated (the SQLite connection holds the locks), or be a confirmed exception; (2) TryAcquireWriteLock's exit lock sets, decided by the per-path typestate: rollback mode PENDING/SHARED/RESERVED exclusive, WAL mode SHARED+DMS shared and WRITE/CKPT/RECOVER/READ0-4 exclusive, everything released on failure; (3) no function re-acquires the write lock while holding it (self-deadlock); (4) wiring tables: guard set fields to the same-named mutexes, lock-type constants to guards and to SQLite's byte offsets, range parsers; (5) the checkpoint gate and the WAL write guards. The recorded journal mode (which selects the lock set) after a rollback-journal commit derives from the committed page 1 only, never from the previous mode.",
 		NotDecided: "the reachable-state exploration of two or three lock owners (that is model checking); it decides that each code path acquires the set the protocol requires.",
 		Assumptions: []string{"go/ssa faithfully represents the source", "RWMutexGuard implements reader/writer semantics (C12)"},
 	})
